@@ -3,7 +3,7 @@
 
 use super::domain::*;
 use im_rc::OrdMap;
-use incremental::{Incr, IncrState, Value, Var};
+use incremental::{Cutoff, Incr, IncrState, Value, Var};
 use incremental_map::im_rc::Either;
 use incremental_map::prelude::*;
 use std::cell::RefCell;
@@ -32,6 +32,9 @@ type Reader = Box<dyn Fn() -> Result<Out, String>>;
 pub struct Rig {
     // field order = drop order: observer first, handles, then the state
     obs: Option<Reader>,
+    /// permanent observers directly on the input variables (`pinned_input`)
+    #[allow(dead_code)]
+    pins: Vec<Box<dyn std::any::Any>>,
     make_obs: Box<dyn Fn() -> Reader>,
     setters: Vec<Box<dyn Fn(&Bt)>>,
     pub state: IncrState,
@@ -54,20 +57,54 @@ impl Rig {
     pub fn read(&self) -> Option<Result<Out, String>> {
         self.obs.as_ref().map(|r| r())
     }
+    /// Stamp of the operator node's last recomputation (hook H1: the `rec=@n` field of the
+    /// only `MapWithOld` node; every operator of this world is built on `map_with_old`).
+    /// Two readings around a stabilise differ iff the operator ran in it.
+    pub fn op_rec(&self) -> Option<i64> {
+        let dump = self.state.verif_dump();
+        let line = dump.lines().find(|l| l.contains("kind=MapWithOld"))?;
+        let at = line.find(" rec=@")? + 6;
+        let rest = &line[at..];
+        let end = rest.find(' ').unwrap_or(rest.len());
+        rest[..end].parse().ok()
+    }
     pub fn take_log(&self) -> Vec<Call> {
         std::mem::take(&mut *self.log.borrow_mut())
     }
 }
 
-fn setter<M: MapTy>(var: &Var<M>, shared: bool) -> Box<dyn Fn(&Bt)> {
+/// Variant switches of a scenario's real graph.
+#[derive(Clone, Copy, Debug, Default, PartialEq, Eq)]
+pub struct Opts {
+    /// new input values are edits of a clone of the current value
+    pub shared: bool,
+    /// observe through a downstream identity map
+    pub via: bool,
+    /// the input variables get `Cutoff::Never`: writing an equal map still makes the operator
+    /// run (on an input equal to its stored old input)
+    pub input_never: bool,
+    /// a permanent observer sits directly on every input variable, so the variable nodes follow
+    /// the writes while the operator itself is unobserved
+    pub pinned_input: bool,
+}
+
+/// Configure one input variable; returns its setter.
+fn input_var<M: MapTy>(var: &Var<M>, o: Opts, pins: &mut Vec<Box<dyn std::any::Any>>) -> Box<dyn Fn(&Bt)> {
+    if o.input_never {
+        var.watch().set_cutoff(Cutoff::Never);
+    }
+    if o.pinned_input {
+        pins.push(Box::new(var.watch().observe()));
+    }
     let var = var.clone();
+    let shared = o.shared;
     Box::new(move |b: &Bt| {
         let nv = if shared { M::derive(&var.get(), b) } else { M::from_bt(b) };
         var.set(nv)
     })
 }
 
-fn finish<R: Value>(state: IncrState, log: Log, setters: Vec<Box<dyn Fn(&Bt)>>, out: Incr<R>, via: bool, conv: fn(&R) -> Out) -> Rig {
+fn finish<R: Value>(state: IncrState, log: Log, setters: Vec<Box<dyn Fn(&Bt)>>, pins: Vec<Box<dyn std::any::Any>>, out: Incr<R>, via: bool, conv: fn(&R) -> Out) -> Rig {
     // `via`: observe the operator through a downstream identity map, so that the operator's
     // self-reported `did_change` (which replaces the cutoff) decides whether the observed
     // value follows.
@@ -76,7 +113,7 @@ fn finish<R: Value>(state: IncrState, log: Log, setters: Vec<Box<dyn Fn(&Bt)>>, 
         let o = out.observe();
         Box::new(move || o.try_get_value().map(|v| conv(&v)).map_err(|e| format!("{e:?}")))
     });
-    Rig { obs: None, make_obs, setters, state, log }
+    Rig { obs: None, pins, make_obs, setters, state, log }
 }
 
 fn conv_map<M: MapTy>(m: &M) -> Out {
@@ -90,7 +127,7 @@ fn conv_pair(p: &(OrdMap<i32, i32>, OrdMap<i32, i32>)) -> Out {
 }
 
 /// Operators of the blanket `IncrMap` trait, on any of the three map types.
-fn build_generic<M>(op: Op, shared: bool, via: bool) -> Rig
+fn build_generic<M>(op: Op, o: Opts) -> Rig
 where
     M: MapTy + SymmetricMapMap<i32, i32>,
     M::OutputMap<i32>: MapTy,
@@ -99,7 +136,8 @@ where
     let log: Log = Rc::new(RefCell::new(vec![]));
     let var: Var<M> = state.var(M::from_bt(&Bt::new()));
     let input: Incr<M> = var.watch();
-    let setters = vec![setter(&var, shared)];
+    let mut pins = vec![];
+    let setters = vec![input_var(&var, o, &mut pins)];
     let l = log.clone();
     match op {
         Op::Map => {
@@ -107,28 +145,28 @@ where
                 push(&l, "f", *v / 10, *v, 0);
                 f_map(*v)
             });
-            finish(state, log, setters, out, via, conv_map::<M::OutputMap<i32>>)
+            finish(state, log, setters, pins, out, o.via, conv_map::<M::OutputMap<i32>>)
         }
         Op::FilterMap => {
             let out = input.incr_filter_map(move |v: &i32| {
                 push(&l, "f", *v / 10, *v, 0);
                 f_filter_map(*v)
             });
-            finish(state, log, setters, out, via, conv_map::<M::OutputMap<i32>>)
+            finish(state, log, setters, pins, out, o.via, conv_map::<M::OutputMap<i32>>)
         }
         Op::Mapi => {
             let out = input.incr_mapi(move |k: &i32, v: &i32| {
                 push(&l, "f", *k, *v, 0);
                 f_mapi(*k, *v)
             });
-            finish(state, log, setters, out, via, conv_map::<M::OutputMap<i32>>)
+            finish(state, log, setters, pins, out, o.via, conv_map::<M::OutputMap<i32>>)
         }
         Op::FilterMapi => {
             let out = input.incr_filter_mapi(move |k: &i32, v: &i32| {
                 push(&l, "f", *k, *v, 0);
                 f_filter_mapi(*k, *v)
             });
-            finish(state, log, setters, out, via, conv_map::<M::OutputMap<i32>>)
+            finish(state, log, setters, pins, out, o.via, conv_map::<M::OutputMap<i32>>)
         }
         Op::Fold { update, revert } => {
             let (la, lr, lu) = (log.clone(), log.clone(), log.clone());
@@ -154,7 +192,7 @@ where
             } else {
                 input.incr_unordered_fold(FOLD_INIT, add, remove, revert)
             };
-            finish(state, log, setters, out, via, conv_num)
+            finish(state, log, setters, pins, out, o.via, conv_num)
         }
         Op::CFold { update, revert, initial } => {
             let (la, lr, lu, li) = (log.clone(), log.clone(), log.clone(), log.clone());
@@ -179,7 +217,7 @@ where
             if !update && !initial {
                 let fold = ClosureFold::new::<M, i32, i32, i64>().add(add).remove(remove).revert_to_init_when_empty(revert);
                 let out: Incr<i64> = input.incr_unordered_fold_with(FOLD_INIT, fold);
-                return finish(state, log, setters, out, via, conv_num);
+                return finish(state, log, setters, pins, out, o.via, conv_num);
             }
             let base = ClosureFold::new_add_remove(add, remove);
             let out: Incr<i64> = match (update, initial) {
@@ -188,7 +226,7 @@ where
                 (false, true) => input.incr_unordered_fold_with(FOLD_INIT, base.initial(ini).revert_to_init_when_empty(revert)),
                 (true, true) => input.incr_unordered_fold_with(FOLD_INIT, base.update(upd).initial(ini).revert_to_init_when_empty(revert)),
             };
-            finish(state, log, setters, out, via, conv_num)
+            finish(state, log, setters, pins, out, o.via, conv_num)
         }
         Op::Merge | Op::Partition | Op::PartitionMapi => unreachable!("not a generic operator"),
     }
@@ -206,31 +244,34 @@ fn merge_fn(l: Log) -> impl FnMut(&i32, MergeElement<&i32, &i32>) -> Option<i32>
     }
 }
 
-fn build_merge_bt(shared: bool, via: bool) -> Rig {
+fn build_merge_bt(o: Opts) -> Rig {
     let state = IncrState::new();
     let log: Log = Rc::new(RefCell::new(vec![]));
     let left: Var<Bt> = state.var(Bt::new());
     let right: Var<Bt> = state.var(Bt::new());
-    let setters = vec![setter(&left, shared), setter(&right, shared)];
+    let mut pins = vec![];
+    let setters = vec![input_var(&left, o, &mut pins), input_var(&right, o, &mut pins)];
     let out = left.watch().incr_merge(&right.watch(), merge_fn(log.clone()));
-    finish(state, log, setters, out, via, conv_map::<Bt>)
+    finish(state, log, setters, pins, out, o.via, conv_map::<Bt>)
 }
 
-fn build_merge_om(shared: bool, via: bool) -> Rig {
+fn build_merge_om(o: Opts) -> Rig {
     let state = IncrState::new();
     let log: Log = Rc::new(RefCell::new(vec![]));
     let left: Var<OrdMap<i32, i32>> = state.var(OrdMap::new());
     let right: Var<OrdMap<i32, i32>> = state.var(OrdMap::new());
-    let setters = vec![setter(&left, shared), setter(&right, shared)];
+    let mut pins = vec![];
+    let setters = vec![input_var(&left, o, &mut pins), input_var(&right, o, &mut pins)];
     let out = left.watch().incr_merge(&right.watch(), merge_fn(log.clone()));
-    finish(state, log, setters, out, via, conv_map::<OrdMap<i32, i32>>)
+    finish(state, log, setters, pins, out, o.via, conv_map::<OrdMap<i32, i32>>)
 }
 
-fn build_partition(op: Op, shared: bool, via: bool) -> Rig {
+fn build_partition(op: Op, o: Opts) -> Rig {
     let state = IncrState::new();
     let log: Log = Rc::new(RefCell::new(vec![]));
     let var: Var<OrdMap<i32, i32>> = state.var(OrdMap::new());
-    let setters = vec![setter(&var, shared)];
+    let mut pins = vec![];
+    let setters = vec![input_var(&var, o, &mut pins)];
     let l = log.clone();
     let out: Incr<(OrdMap<i32, i32>, OrdMap<i32, i32>)> = if op == Op::Partition {
         var.watch().incr_partition(move |k: &i32, v: &i32| {
@@ -246,18 +287,18 @@ fn build_partition(op: Op, shared: bool, via: bool) -> Rig {
             }
         })
     };
-    finish(state, log, setters, out, via, conv_pair)
+    finish(state, log, setters, pins, out, o.via, conv_pair)
 }
 
 /// Build the real graph of a scenario. Panics if the operator is not defined on the map type.
-pub fn build(op: Op, mt: Mt, shared: bool, via: bool) -> Rig {
+pub fn build(op: Op, mt: Mt, o: Opts) -> Rig {
     assert!(op.defined_on(mt), "{op:?} is not defined on {mt:?}");
     match (op, mt) {
-        (Op::Merge, Mt::Bt) => build_merge_bt(shared, via),
-        (Op::Merge, Mt::Om) => build_merge_om(shared, via),
-        (Op::Partition | Op::PartitionMapi, _) => build_partition(op, shared, via),
-        (_, Mt::Bt) => build_generic::<Bt>(op, shared, via),
-        (_, Mt::Rc) => build_generic::<Rc<Bt>>(op, shared, via),
-        (_, Mt::Om) => build_generic::<OrdMap<i32, i32>>(op, shared, via),
+        (Op::Merge, Mt::Bt) => build_merge_bt(o),
+        (Op::Merge, Mt::Om) => build_merge_om(o),
+        (Op::Partition | Op::PartitionMapi, _) => build_partition(op, o),
+        (_, Mt::Bt) => build_generic::<Bt>(op, o),
+        (_, Mt::Rc) => build_generic::<Rc<Bt>>(op, o),
+        (_, Mt::Om) => build_generic::<OrdMap<i32, i32>>(op, o),
     }
 }
